@@ -31,7 +31,7 @@ ASSUMPTIONS = [
 COMPONENTS = dict(real='all pytableaux code from /repo (Tableau, rules, helpers, models, StopWatch)', stub='pytableaux.tools.timing._time (virtual clock), node/branch hash provider (seeded)')
 
 def plan(tier):
-    return dict(runs=1200 if tier == 'quick' else 16000, timeout=900 if tier == 'quick' else 7200)
+    return dict(runs=1200 if tier == 'quick' else 16000, timeout=900 if tier == 'quick' else 14400)
 
 # ---------------------------------------------------------------------------
 
